@@ -58,6 +58,9 @@ def run_export(case):
                 clusters_wfs=np.asarray(m.sparse_clusters.data, dtype=np.float64).tolist(),
                 amplitudes=[float(x) for x in m.amplitudes], has_features=m.sparse_features is not None,
                 sample_rate=float(m.sample_rate), n_closest=int(m.n_closest_channels))
+            if m.sparse_features is not None:
+                dep = m.get_depths()
+                res['src_model']['depths'] = None if dep is None else [None if np.isnan(x) else float(x) for x in dep]
             out = d / 'alf'
             # the source directory under several spellings: canonical, through '..', through a symlink
             link = d / 'link_to_src'
